@@ -3,8 +3,14 @@
 package pp
 
 import (
+	"regexp"
+
 	"github.com/ohler55/slip"
 )
+
+// Matches the indentation a previous pretty print put after a line break so
+// that printing a loaded definition again gives the same text.
+var docIndent = regexp.MustCompile(`\n[ \t]+`)
 
 // Doc holds a documentation string.
 type Doc struct {
@@ -30,7 +36,7 @@ func (doc *Doc) reorg(edge int) int {
 
 func (doc *Doc) adjoin(b []byte) []byte {
 	b = append(b, '"')
-	b = slip.AppendDoc(b, doc.text, doc.x+1, doc.x+doc.wide, false, 0)
+	b = slip.AppendDoc(b, docIndent.ReplaceAllString(doc.text, "\n"), doc.x+1, doc.x+doc.wide, false, 0)
 
 	return append(b, '"')
 }
